@@ -50,7 +50,10 @@ class QueryMarkerRunner(argschema.ArgSchemaParser):
                 if pair[0].lower() == 'none':
                     k = None
                 else:
-                    k = pair[0]
+                    # select_all_markers looks parents up as
+                    # (level, node) tuples; 'level/node' is how parents
+                    # are written everywhere else in configs and outputs
+                    k = tuple(pair[0].split('/', 1))
                 n_per_utility_override[k] = pair[1]
 
         marker_lookup = create_marker_gene_lookup_from_ref_list(
